@@ -175,6 +175,34 @@ def _work(job):
                 continue
             r = datarun.run_scenario(sc, ch, eager=('writer',))
             out.append(_digest(r, pid, src))
+    elif kind == 'long':
+        # long sessions: one item with a long alternating history; many items; (nothing may depend on how much a
+        # connection has already done)
+        seed = arg
+        rng = random.Random(seed)
+        for which in range(3):
+            if which < 2:
+                k = rng.choice([40, 70])
+                hist = [('a%d' % (i + 1), 'SUB' if i % 2 == 0 else 'USB', 'a') for i in range(k)]
+                chunks = [hist[i:i + rng.choice([1, 2, 5])] for i in range(0, k, 5)] if which else [hist]
+                chunks = [c for c in chunks if c]
+                if which:
+                    chunks, i = [], 0
+                    while i < k:
+                        step = rng.choice([1, 2, 3])
+                        chunks.append(hist[i:i + step])
+                        i += step
+                sc = Scenario(rng.choice([1, 2, 3]), chunks, {'a': {'snap': [rng.choice(SNAP) for _ in range(4)], 'sub': [rng.choice(SUB) for _ in range(4)],
+                                                                  'usb': [rng.choice(USB) for _ in range(4)], 'nest': [[], ['upd'], [], []]}},
+                              free=[[('upd', 'a')] * 5])
+            else:
+                items = ['i%d' % j for j in range(80)]
+                reqs = []
+                for j, it in enumerate(items):
+                    reqs += [('%s-%d' % (it, 1), 'SUB', it), ('%s-%d' % (it, 2), 'USB', it)]
+                sc = Scenario(3, [reqs[i:i + 16] for i in range(0, len(reqs), 16)], {})
+            r = datarun.run_scenario(sc, dsched.RandomChooser(random.Random(rng.getrandbits(32))), eager=('writer',), max_steps=60000)
+            out.append(_digest(r, pid, 'random'))
     elif kind == 'corpus':
         for fn, sc, schedule in corpus_cases(pid):
             r = replay_run(sc, schedule)
@@ -200,7 +228,7 @@ def explore(ctx, res, pid):
     cap = 600 if tier == "quick" else 40000
     nrand = 1600 if tier == "quick" else 40000
     nproc = min(8, multiprocessing.cpu_count())
-    jobs = [('corpus', pid, tier, None)]
+    jobs = [('corpus', pid, tier, None), ('long', pid, tier, rng.getrandbits(40))]
     smalls = small_scenarios(tier)
     for sc in smalls:
         jobs.append(('dfs', pid, tier, (sc, bound, cap)))
